@@ -5,6 +5,7 @@ pub mod bddmid;
 pub mod cnf;
 pub mod ffi;
 pub mod lru;
+pub mod prelude;
 pub mod query;
 pub mod sat;
 pub mod sdd;
